@@ -14,6 +14,23 @@ import (
 type ct1 string
 type ct2 int64
 
+// registered lazily, while other goroutines use the registry (a plugin, a sync.Once on first use, a late import)
+type (
+	lz1 string
+	lz2 string
+	lz3 string
+	lz4 string
+	lz5 string
+	lz6 string
+	lz7 string
+	lz8 string
+)
+
+func regLazy[T ~string]() {
+	restlicodec.RegisterCustomTyperef(func(t T) (string, error) { return string(t), nil }, func(p string) (T, error) { return T(p), nil },
+		func(t T) fnv1a.Hash { return fnv1a.HashString(string(t)) }, func(a, b T) bool { return a == b })
+}
+
 func phaseRegistry(n, iters int, stats map[string]int) {
 	var once sync.WaitGroup
 	once.Add(2)
@@ -29,6 +46,20 @@ func phaseRegistry(n, iters int, stats map[string]int) {
 	}()
 	once.Wait()
 	var wg sync.WaitGroup
+	wg.Add(1)
+	go func() {
+		defer wg.Done()
+		for i, reg := range []func(){regLazy[lz1], regLazy[lz2], regLazy[lz3], regLazy[lz4], regLazy[lz5], regLazy[lz6], regLazy[lz7], regLazy[lz8]} {
+			for spin := 0; spin < 2000*(i+1); spin++ {
+				_ = fnv1a.HashString("spread the registrations over the run")
+			}
+			reg()
+			w := restlicodec.NewCompactJsonWriter()
+			if err := restlicodec.MarshalRestLi(lz1("x"), w); err != nil || w.Finalize() != `"x"` {
+				violation("C17/registry/lazy", fmt.Sprintf("a type registered while the registry is in use cannot be marshaled: %v", err), nil)
+			}
+		}
+	}()
 	for g := 0; g < n; g++ {
 		wg.Add(1)
 		go func(g int) {
